@@ -180,6 +180,57 @@ class Composition(Harness):
         return AND(got.pc >= pc - tol, got.pc <= pc + tol, got.a >= a - tol, got.a <= a + tol)
 
 
+class CombinedClient(Harness):
+    """WMSClient.combined_client: two upstream requests are sent as one only if the one request is equivalent to the two -- same
+    URL and every request parameter except the layer names equal; the combined request then asks for the layers of both in order.
+    Which parameter (if any) differs between the two templates is the solver's choice."""
+    modules = ['mapproxy.client.wms']
+    functions = ['WMSClient.combined_client']
+    DIFFS = ['nothing', 'url', 'styles', 'transparent', 'vendor parameter', 'sld', 'format']
+
+    @classmethod
+    def build(cls, L, cfg):
+        return dict(c=L.mods['mapproxy.client.wms'])
+
+    @classmethod
+    def inputs(cls, ctx, cfg):
+        d = int_var('differing_parameter')
+        assume(AND(d >= 0, d < len(cls.DIFFS)))
+        return dict(differs=d, second_has_it_only=bool_var('only_the_second_source_sets_it'))
+
+    @classmethod
+    def native_inputs(cls, cex):
+        return dict(differs=int(cex['differs']), second_has_it_only=bool(cex['second_has_it_only']))
+
+    @classmethod
+    def prop(cls, ctx, cfg, differs, second_has_it_only):
+        from engine.symex import concretize
+        from mapproxy.request.wms import WMS111MapRequest
+        c = ctx['c']
+        d = cls.DIFFS[concretize(differs) if not isinstance(differs, int) else differs]
+        only2 = B(second_has_it_only)
+        p1 = dict(layers='roads,rail', format='image/png', transparent='true')
+        p2 = dict(layers='labels', format='image/png', transparent='true')
+        key, v1, v2 = {'styles': ('styles', 'day', 'night'), 'transparent': ('transparent', 'true', 'false'),
+                       'vendor parameter': ('map', '/a.map', '/b.map'), 'sld': ('sld', 'http://x/a.sld', 'http://x/b.sld'),
+                       'format': ('format', 'image/png', 'image/jpeg')}.get(d, (None, None, None))
+        if key:
+            if only2 and key not in ('transparent', 'format'):
+                p2[key] = v2
+            else:
+                p1[key], p2[key] = v1, v2
+        url2 = 'http://upstream/other' if d == 'url' else 'http://upstream/service'
+        a = c.WMSClient(WMS111MapRequest(url='http://upstream/service', param=p1), http_client=object())
+        b = c.WMSClient(WMS111MapRequest(url=url2, param=p2), http_client=object())
+        comb = a.combined_client(b, None)
+        if d != 'nothing':
+            return comb is None
+        if comb is None:
+            return cfg.get('witness_none', False)
+        return AND(list(comb.request_template.params.layers) == ['roads', 'rail', 'labels'], comb.request_template.url == 'http://upstream/service',
+                   comb.request_template.params.get('transparent') == 'true')
+
+
 class _SlowPath(Exception):
     pass
 
@@ -548,6 +599,8 @@ CANARIES = [
      dict(size=(256, 256), res=10.0, coverage=False, with_opacity=False, max_res=20.0)),
     ('opacity not applied on the alpha-composite path', 'Composition', {'mapproxy.image.merge': [(
         "ImageChops.constant(alpha, int(255 * opacity))", "ImageChops.constant(alpha, 255)")]}, dict(out='RGBA', modes=['RGB', 'RGBA'], opacity_on=1)),
+    ('requests combined whenever the URL is equal', 'CombinedClient', {'mapproxy.client.wms': [(
+        "        if params_without_layers(self.request_template) != params_without_layers(other.request_template):\n            return None\n", "")]}, {}),
     ('single-layer shortcut ignores opacity', 'FastPath', {'mapproxy.image.merge': [(
         "                and (not layer_opts or layer_opts.opacity is None or layer_opts.opacity >= 1.0)\n", "")]}, {}),
     ('single-layer shortcut ignores the global clip coverage', 'FastPath', {'mapproxy.image.merge': [(
@@ -591,13 +644,14 @@ def obligations(tier, seed):
     for d in ('none', 'shared', 'srs', 'formats', 'coverage', 'opacity', 'opacity-a', 'opacity-b', 'opacity-both', 'transparent_color', 'fwd', 'res_range'):
         specs.append(spec(MOD, 'Compatible', 'combine-compatible/%s' % d, cfg=dict(differs=d)))
     specs.append(spec(MOD, 'OpaquePruning', 'opaque-pruning-loop-of-the-wms-service', cfg={}, cost=5))
+    specs.append(spec(MOD, 'CombinedClient', 'combined-request-equivalent-to-the-separate-requests', cfg={}, cost=2))
     # known finding: the pruning runs before the authorization callback is asked, so a layer that is opaque by configuration
     # but clipped to a limited_to geometry afterwards has already removed the layers below it
     specs.append(spec(MOD, 'OpaquePruning', 'opaque-pruning-before-authorization-limits', kind='finding', finding_key='C14-opaque-pruning-before-authorization',
                       cfg=dict(authorizer=True), cost=5))
     for c in COMPOSITIONS:
         specs.append(spec(MOD, 'Composition', 'composition/%s-out/%s-over-%s/opacity-%s' % (c['out'], c['modes'][1], c['modes'][0], ('none', 'bottom', 'top')[c['opacity_on'] + 1]), cfg=c, cost=3))
-    twins = dict(OpaqueSound=ocfgs[0], FastPath={}, Composition=COMPOSITIONS[0], Combine=dict(n=3), Compatible=dict(differs='coverage'), SubImageLabel={}, OpaquePruning={})
+    twins = dict(OpaqueSound=ocfgs[0], FastPath={}, Composition=COMPOSITIONS[0], CombinedClient={}, Combine=dict(n=3), Compatible=dict(differs='coverage'), SubImageLabel={}, OpaquePruning={})
     for h, c in twins.items():
         specs.append(spec(MOD, h, 'twin/' + h, kind='witness', cfg=c))
     for label, h, patches, c in (CANARIES if tier == 'thorough' else CANARIES[:1] + CANARIES[2:7]):
